@@ -170,8 +170,12 @@ def classify(db, fn, start_local, start_bb, returned_iter_fns, depth=0):
                     or c.startswith("core::iter::traits::double_ended::") or HASH_TY.search(c):
                 if name == "next" or name == "next_back":
                     body = natural_loop(fn, bi)
-                    v = classify_loop(db, fn, body, bi, uses)
-                    verdicts.append(v)
+                    if body == {bi} and bi not in fn.succ()[bi]:
+                        # not a loop: a single next() takes whichever element the table order puts first
+                        verdicts.append(("sensitive", "a single %s() outside any loop (line %d) picks the first element in table order" % (name, t["ln"])))
+                    else:
+                        v = classify_loop(db, fn, body, bi, uses)
+                        verdicts.append(v)
                 elif name in ADAPTERS or (HASH_TY.search(c) and name in ITER_METHODS):
                     work.append(dest)
                 elif name in TERMINAL_INSENSITIVE:
